@@ -497,7 +497,18 @@ def op_add_relation(st, op):
             child.end += by
             return child
         kw["child_func"] = child_func2
+    elif cf == "raise":
+        def child_func3(parent, child):
+            raise ValueError("user child_func failed")
+        kw["child_func"] = child_func3
     pf = op.get("parent_func")
+    if pf == "stretch":
+        def parent_func2(parent, child):
+            if parent.start is not None and child.start is not None:
+                parent.start = min(parent.start, child.start)
+                parent.end = max(parent.end, child.end) + 1
+            return parent
+        kw["parent_func"] = parent_func2
     if pf == "tag":
         def parent_func(parent, child):
             parent.attributes["child"] = [child.id]
@@ -810,6 +821,24 @@ def op_dataiter(st, op):
             "ledger": st.ledgers.get(led)}
 
 
+def op_dataiter_resume(st, op):
+    """A DataIterator whose transform fails once on some item; the caller catches that and goes on iterating the SAME object."""
+    led = op.get("src", "s%d" % st.serial)
+    data, skw = make_source(st, op["data"], led)
+    kw = dict(op.get("kw") or {})
+    kw.update(skw)
+    kw["transform"] = make_transform(st, op["transform"], st.ledgers[led])
+    it = giterators.DataIterator(data, **kw)
+    first, failed = [], False
+    try:
+        for f in it:
+            first.append(_fkey(f))
+    except SourceError:
+        failed = True
+    rest = [_fkey(f) for f in it]
+    return {"first": first, "failed": failed, "rest": rest, "ledger": st.ledgers.get(led)}
+
+
 def op_dataiter_pair(st, op):
     """Two iterators over the same from_string text alive at once; the first is dropped and collected
     before the second is read."""
@@ -834,8 +863,14 @@ def op_inspect(st, op):
     kw = dict(op.get("kw") or {})
     if op.get("from_db"):
         data = st.h[op["from_db"]]
+    rest_n = None
+    if op.get("via_dataiter"):
+        # the caller inspects the head of a stream through an iterator of its own and then reads on from the same iterator
+        data = giterators.DataIterator(data, checklines=0)
     out = ginspect.inspect(data, verbose=False, **kw)
-    return {"out": out, "ledger": st.ledgers.get(led)}
+    if op.get("via_dataiter"):
+        rest_n = sum(1 for _ in data)
+    return {"out": out, "ledger": st.ledgers.get(led), "rest_n": rest_n}
 
 
 def op_export(st, op):
@@ -891,6 +926,7 @@ OPS = {
     "dataiter": op_dataiter,
     "inspect": op_inspect,
     "dataiter_pair": op_dataiter_pair,
+    "dataiter_resume": op_dataiter_resume,
     "export": op_export,
     "ls": op_ls,
     "symlink": op_symlink,
